@@ -27,21 +27,22 @@ var (
 func genOpts(t *rapid.T) Opts {
 	var o Opts
 	style := rapid.IntRange(0, 19).Draw(t, "optstyle")
-	if style < 3 {
+	// (rapid favours the ends of a range, rare classes sit in the middle)
+	if style >= 8 && style <= 10 {
 		return optsDefault // the codec is then built without any option
 	}
 	o.Comma = rapid.SampledFrom(seps).Draw(t, "comma")
 	o.Comment = rapid.SampledFrom(comments).Draw(t, "comment")
-	o.Lazy = rapid.IntRange(0, 3).Draw(t, "lazy") == 0
-	o.Trim = rapid.IntRange(0, 3).Draw(t, "trim") == 0
+	o.Lazy = rapid.IntRange(0, 3).Draw(t, "lazy") == 3
+	o.Trim = rapid.IntRange(0, 3).Draw(t, "trim") == 3
 	o.FPR = rapid.SampledFrom(fprs).Draw(t, "fpr")
 	o.Skip = -1 // drawn once the text is known (genCommon)
-	o.CRLF = rapid.IntRange(0, 2).Draw(t, "crlf") == 0
-	o.Reuse = rapid.IntRange(0, 2).Draw(t, "reuse") == 0
+	o.CRLF = rapid.IntRange(0, 2).Draw(t, "crlf") == 2
+	o.Reuse = rapid.IntRange(0, 2).Draw(t, "reuse") == 2
 	o.WComma = rapid.SampledFrom(wseps).Draw(t, "wcomma")
-	o.Close = rapid.IntRange(0, 3).Draw(t, "close") == 0
+	o.Close = rapid.IntRange(0, 3).Draw(t, "close") == 3
 	switch style {
-	case 3: // invalid reader combinations
+	case 12: // invalid reader combinations
 		switch rapid.IntRange(0, 2).Draw(t, "badreader") {
 		case 0:
 			o.Comma = rapid.SampledFrom(badSeps).Draw(t, "badcomma")
@@ -54,7 +55,7 @@ func genOpts(t *rapid.T) Opts {
 				o.Comment = o.Comma
 			}
 		}
-	case 4: // invalid writer separator
+	case 14: // invalid writer separator
 		o.WComma = rapid.SampledFrom(badWSeps).Draw(t, "badwcomma")
 	}
 	return o
@@ -74,7 +75,7 @@ func cleanFields(sep string) []string {
 		"a", "b", "c d", "x1", "ü", "€uro", "", "", "0", "-1.5",
 		`"q"`, `"two words"`, `"x` + sep + `y"`, `"l1` + "\n" + `l2"`, `"l1` + "\r\n" + `l2"`, `"d""q"`, `""""`, `""`,
 		" lead", "trail ", " ", "\tt", `" padded "`,
-		"#c", ";", "|", "/", `\.`, "'s'", "a=b",
+		"#c", "x;y", "p|q", `\.`, "'s'", "a=b",
 	}
 }
 
@@ -86,8 +87,8 @@ func dirtyFields() []string {
 
 func genText(t *rapid.T, o Opts) (string, int) {
 	sep := sepOf(o)
-	style := rapid.IntRange(0, 9).Draw(t, "textstyle")
-	if style == 0 {
+	style := rapid.IntRange(0, 11).Draw(t, "textstyle")
+	if style == 6 {
 		// raw: any short string over the characters that matter
 		alphabet := []rune{'a', 'b', ',', ';', '"', '"', '\n', '\n', '\r', ' ', '#', 'ü', '\t'}
 		if o.Comma > 0 && o.Comma < 0x110000 {
@@ -96,23 +97,36 @@ func genText(t *rapid.T, o Opts) (string, int) {
 		s := rapid.StringOfN(rapid.SampledFrom(alphabet), 0, 24, -1).Draw(t, "raw")
 		return s, strings.Count(s, "\n") + 1
 	}
-	dirty := style == 1 || style == 2
-	rect := rapid.Bool().Draw(t, "rect")
+	dirty := style == 7 || style == 8
+	// ragged rows are well formed only with fields-per-record -1; a fixed n wants rows of n fields
+	rect := rapid.IntRange(0, 7).Draw(t, "ragged") != 4
 	width := rapid.IntRange(1, 4).Draw(t, "width")
-	n := rapid.IntRange(0, 6).Draw(t, "nlines")
+	switch {
+	case o.FPR < 0:
+		rect = rapid.IntRange(0, 3).Draw(t, "rect") == 2
+	case o.FPR > 0 && rapid.IntRange(0, 9).Draw(t, "fit") < 8:
+		width = o.FPR
+	}
+	n := 0
+	if rapid.IntRange(0, 19).Draw(t, "notext") != 10 {
+		n = rapid.IntRange(1, 6).Draw(t, "nlines")
+	}
 	clean := cleanFields(sep)
 	bad := dirtyFields()
 	var sb strings.Builder
 	for i := 0; i < n; i++ {
-		kind := rapid.IntRange(0, 11).Draw(t, "linekind")
+		kind := rapid.IntRange(0, 15).Draw(t, "linekind")
 		switch {
-		case kind == 0: // empty line
-		case kind == 1: // comment line (a plain record when no comment rune is set)
-			c := "#"
+		case kind == 7 || kind == 9: // empty line
+		case kind == 8 || kind == 10: // comment line (a plain record when no comment rune is set)
 			if o.Comment > 0 && o.Comment < 0x110000 && o.Comment != '\n' && o.Comment != '\r' {
-				c = string(rune(o.Comment))
+				sb.WriteString(string(rune(o.Comment)) + "note" + sep + `"x`) // never parsed: the open quote must not matter
+			} else {
+				sb.WriteString("#note")
+				for j := 1; j < width; j++ {
+					sb.WriteString(sep + "n")
+				}
 			}
-			sb.WriteString(c + "note" + sep + `"x`)
 		default:
 			nf := width
 			if !rect {
@@ -122,7 +136,7 @@ func genText(t *rapid.T, o Opts) (string, int) {
 				if j > 0 {
 					sb.WriteString(sep)
 				}
-				if dirty && rapid.IntRange(0, 5).Draw(t, "isdirty") == 0 {
+				if dirty && rapid.IntRange(0, 7).Draw(t, "isdirty") == 3 {
 					sb.WriteString(rapid.SampledFrom(bad).Draw(t, "badfield"))
 				} else {
 					sb.WriteString(rapid.SampledFrom(clean).Draw(t, "field"))
@@ -157,15 +171,33 @@ func genCommon(t *rapid.T, mode string) Case {
 		}
 	}
 	c.Chunk = rapid.SampledFrom(chunks).Draw(t, "chunk")
-	c.EOFData = rapid.IntRange(0, 3).Draw(t, "eofdata") == 0
-	c.Rich = rapid.IntRange(0, 2).Draw(t, "rich") == 0
-	c.Named = rapid.IntRange(0, 3).Draw(t, "named") == 0
+	c.EOFData = rapid.IntRange(0, 3).Draw(t, "eofdata") == 3
+	c.Rich = rapid.IntRange(0, 2).Draw(t, "rich") == 2
+	c.Named = rapid.IntRange(0, 3).Draw(t, "named") == 3
 	return c
 }
 
+// genPre draws the destination's pre-state relative to the number of records the input delivers.
 func genPre(t *rapid.T, c *Case) {
-	if rapid.IntRange(0, 2).Draw(t, "prepopulated") > 0 {
-		c.Pre = rapid.IntRange(0, 8).Draw(t, "pre")
+	m := parse(string(c.Text), c.Opts)
+	cnt := len(drop(m.recs, c.Opts.Skip))
+	switch rapid.IntRange(0, 9).Draw(t, "prestate") {
+	case 6, 7, 8, 9: // zero value
+	case 5: // empty, with capacity
+		c.Slack = rapid.IntRange(1, 5).Draw(t, "slack")
+	case 0, 1: // shorter than the input
+		if cnt > 0 {
+			c.Pre = rapid.IntRange(0, cnt-1).Draw(t, "pre")
+			c.Slack = rapid.SampledFrom([]int{0, 0, 1, 5}).Draw(t, "slack")
+			if c.Pre == 0 && c.Slack == 0 {
+				c.Slack = 1
+			}
+		}
+	case 4: // as long as the input
+		c.Pre = cnt
+		c.Slack = rapid.SampledFrom([]int{0, 0, 1, 5}).Draw(t, "slack")
+	default: // longer
+		c.Pre = cnt + rapid.IntRange(1, 4).Draw(t, "pre")
 		c.Slack = rapid.SampledFrom([]int{0, 0, 1, 5}).Draw(t, "slack")
 	}
 }
@@ -183,7 +215,7 @@ func GenProduce(t *rapid.T) Case {
 	c := genCommon(t, "produce")
 	c.Kind = rapid.IntRange(0, 7).Draw(t, "src")
 	if c.Kind >= kTable {
-		c.Ptr = rapid.IntRange(0, 2).Draw(t, "ptr") == 0
+		c.Ptr = rapid.IntRange(0, 2).Draw(t, "ptr") == 2
 	}
 	return c
 }
@@ -191,7 +223,7 @@ func GenProduce(t *rapid.T) Case {
 func GenAgree(t *rapid.T) Case {
 	c := genCommon(t, "agree")
 	genPre(t, &c)
-	c.Ptr = rapid.IntRange(0, 2).Draw(t, "ptr") == 0
+	c.Ptr = rapid.IntRange(0, 2).Draw(t, "ptr") == 2
 	return c
 }
 
@@ -400,10 +432,10 @@ const rule = "CSV text from a grammar (quoted fields, embedded separators/newlin
 func Props() []kit.Runner {
 	return []kit.Runner{
 		kit.Prop[Case]{ID: "C16", Name: "consume", Rule: "CSVConsumer into one of the 8 destination kinds: " + rule,
-			Quick: 40000, Thorough: 600000, Gen: GenConsume, Check: Check, Classify: Classify},
+			Quick: 40000, Thorough: 500000, Gen: GenConsume, Check: Check, Classify: Classify},
 		kit.Prop[Case]{ID: "C16", Name: "produce", Rule: "CSVProducer from one of the 8 source kinds: " + rule,
-			Quick: 40000, Thorough: 600000, Gen: GenProduce, Check: Check, Classify: Classify},
+			Quick: 40000, Thorough: 500000, Gen: GenProduce, Check: Check, Classify: Classify},
 		kit.Prop[Case]{ID: "C16", Name: "agree", Rule: "all 8 destination kinds and all 8 source kinds on the same input, then each produced text into all 8 destination kinds: " + rule,
-			Quick: 5000, Thorough: 60000, Gen: GenAgree, Check: Check, Classify: Classify},
+			Quick: 5000, Thorough: 50000, Gen: GenAgree, Check: Check, Classify: Classify},
 	}
 }
